@@ -111,12 +111,12 @@ Proof. exact limitskip_spec_l. Qed.
 Print Assumptions limitskip_fused_spec.
 
 (** ** Distinct *)
-Theorem distinct_spec : forall cs, Forall small_chunk cs ->
-  rows_of (drain_distinct cs) = dedup_from [] (rows_of cs).
-Proof. exact distinct_spec_l. Qed.
+(** the operator as it is now (24f6dab): every chunk list *)
+Theorem distinct_spec : forall cs, rows_of (drain_distinct cs) = dedup_from [] (rows_of cs).
+Proof. exact distinct_fix_spec_l. Qed.
 Print Assumptions distinct_spec.
 
-Theorem distinct_each_once : forall cs, Forall small_chunk cs ->
+Theorem distinct_each_once : forall cs,
   let out := rows_of (drain_distinct cs) in
   NoDup (map row_key out)
   /\ (forall r, In r (rows_of cs) -> In (row_key r) (map row_key out))
@@ -124,10 +124,16 @@ Theorem distinct_each_once : forall cs, Forall small_chunk cs ->
 Proof. exact distinct_each_once_l. Qed.
 Print Assumptions distinct_each_once.
 
-Theorem distinct_overflow_refuted : exists cs, Forall chunk_wf cs /\
-  rows_of (drain_distinct cs) <> dedup_from [] (rows_of cs).
+(** the operator before 24f6dab (finding C11-K5, fixed) *)
+Theorem distinct_pre_spec : forall cs, Forall small_chunk cs ->
+  rows_of (drain_distinct_pre cs) = dedup_from [] (rows_of cs).
+Proof. exact distinct_spec_l. Qed.
+Print Assumptions distinct_pre_spec.
+
+Theorem distinct_pre_overflow_refuted : exists cs, Forall chunk_wf cs /\
+  rows_of (drain_distinct_pre cs) <> dedup_from [] (rows_of cs).
 Proof. exact distinct_overflow_refuted_l. Qed.
-Print Assumptions distinct_overflow_refuted.
+Print Assumptions distinct_pre_overflow_refuted.
 
 Theorem row_key_faithful : forall r1 r2, forallb key_scalar r1 = true -> forallb key_scalar r2 = true ->
   row_key r1 = row_key r2 -> r1 = r2.
@@ -176,35 +182,41 @@ Proof. exact group_key_scalar_l. Qed.
 Print Assumptions group_key_scalar.
 
 (** ** clause wiring of the front ends *)
-Theorem cypher_window : forall ord s n rows, window_query Cypher ord s n rows = window_spec ord s n rows.
-Proof. exact cypher_window_l. Qed.
-Print Assumptions cypher_window.
+(** as it is now (ce12a2a, 36a1196): every front end sorts, then skips, then limits *)
+Theorem window_all_languages : forall l ord s n rows, window_query l ord s n rows = window_spec ord s n rows.
+Proof. exact window_fix_l. Qed.
+Print Assumptions window_all_languages.
 
-Theorem gql_window_unordered : forall s n rows, window_query Gql false s n rows = window_spec false s n rows.
-Proof. exact gql_window_unordered_l. Qed.
-Print Assumptions gql_window_unordered.
-
-Theorem gql_window_refuted : exists ord s n rows, window_query Gql ord s n rows <> window_spec ord s n rows.
-Proof. exact gql_window_refuted_l. Qed.
-Print Assumptions gql_window_refuted.
-
-Theorem cypher_count : forall s n rows, Forall (fun r => nonnull_at 0 r = true) rows ->
-  count_query Cypher s n rows = count_spec s n rows.
-Proof. exact cypher_count_l. Qed.
-Print Assumptions cypher_count.
-
-Theorem gql_count_refuted : exists s n rows, Forall (fun r => nonnull_at 0 r = true) rows /\
-  count_query Gql s n rows <> count_spec s n rows.
-Proof. exact gql_count_refuted_l. Qed.
-Print Assumptions gql_count_refuted.
+Theorem count_all_languages : forall l s n rows, Forall (fun r => nonnull_at 0 r = true) rows ->
+  count_query l s n rows = count_spec s n rows.
+Proof. exact count_fix_l. Qed.
+Print Assumptions count_all_languages.
 
 Theorem with_distinct : forall rows, with_distinct_query rows = dedup_from [] rows.
 Proof. exact with_distinct_l. Qed.
 Print Assumptions with_distinct.
 
-Theorem return_distinct_refuted : exists rows, return_distinct_query rows <> dedup_from [] rows.
+Theorem return_distinct : forall rows, return_distinct_query rows = dedup_from [] rows.
+Proof. exact return_distinct_fix_l. Qed.
+Print Assumptions return_distinct.
+
+(** before ce12a2a (finding C11-K2, fixed) and before 36a1196 (finding C11-K3, fixed) *)
+Theorem gql_window_pre_unordered : forall s n rows, window_query_pre Gql false s n rows = window_spec false s n rows.
+Proof. exact gql_window_unordered_l. Qed.
+Print Assumptions gql_window_pre_unordered.
+
+Theorem gql_window_pre_refuted : exists ord s n rows, window_query_pre Gql ord s n rows <> window_spec ord s n rows.
+Proof. exact gql_window_refuted_l. Qed.
+Print Assumptions gql_window_pre_refuted.
+
+Theorem gql_count_pre_refuted : exists s n rows, Forall (fun r => nonnull_at 0 r = true) rows /\
+  count_query_pre Gql s n rows <> count_spec s n rows.
+Proof. exact gql_count_refuted_l. Qed.
+Print Assumptions gql_count_pre_refuted.
+
+Theorem return_distinct_pre_refuted : exists rows, return_distinct_query_pre rows <> dedup_from [] rows.
 Proof. exact return_distinct_refuted_l. Qed.
-Print Assumptions return_distinct_refuted.
+Print Assumptions return_distinct_pre_refuted.
 
 Theorem where_without_range_path : forall fa tab p rows, range_pred p = None ->
   rows_of (where_chunks fa tab p rows) = filter (row_passes fa (tab_env tab) p) rows.
@@ -217,35 +229,11 @@ Proof. exact range_path_refuted_l. Qed.
 Print Assumptions range_path_refuted.
 
 (** ** clauses stacked on one input *)
-Theorem clauses_in_order : forall fa envf p s n cs, Forall small_chunk cs ->
+Theorem clauses_in_order : forall fa envf p s n cs,
   rows_of (drain_limit n (drain_skip s (drain_distinct (drain_filter fa envf p cs))))
   = firstn (Z.to_nat n) (skipn (Z.to_nat s) (dedup_from [] (filter (row_passes fa envf p) (rows_of cs)))).
 Proof. exact clauses_in_order_l. Qed.
 Print Assumptions clauses_in_order.
-
-(** ** the prepared repairs of the open findings K2, K3, K5 meet the specification
-       (transcriptions [_fix] of proposed-fixes/C11-*.diff; not the code of /repo yet) *)
-Theorem distinct_fix_spec : forall cs, rows_of (drain_distinct_fix cs) = dedup_from [] (rows_of cs).
-Proof. exact distinct_fix_spec_l. Qed.
-Print Assumptions distinct_fix_spec.
-
-Theorem distinct_fix_conservative : forall cs, Forall small_chunk cs ->
-  rows_of (drain_distinct_fix cs) = rows_of (drain_distinct cs).
-Proof. exact distinct_fix_same_small. Qed.
-Print Assumptions distinct_fix_conservative.
-
-Theorem gql_window_fix : forall l ord s n rows, window_query_fix l ord s n rows = window_spec ord s n rows.
-Proof. exact window_fix_l. Qed.
-Print Assumptions gql_window_fix.
-
-Theorem gql_count_fix : forall l s n rows, Forall (fun r => nonnull_at 0 r = true) rows ->
-  count_query_fix l s n rows = count_spec s n rows.
-Proof. exact count_fix_l. Qed.
-Print Assumptions gql_count_fix.
-
-Theorem return_distinct_fix : forall rows, return_distinct_query_fix rows = dedup_from [] rows.
-Proof. exact return_distinct_fix_l. Qed.
-Print Assumptions return_distinct_fix.
 
 (** ** Sort *)
 Theorem sort_comparator_antisym : forall keys a b, rows_cmp keys b a = - rows_cmp keys a b.
@@ -303,18 +291,22 @@ Theorem count_star_general : forall m cs,
 Proof. exact count_star2_l. Qed.
 Print Assumptions count_star_general.
 
-Theorem sum_spec : forall c cs,
+Theorem sum_spec : forall m c cs,
   let vs := col_vals c (rows_of cs) in
   forallb sum_dom vs = true -> partial_ok (- two63) (two63 - 1) 0 (ints_of_vals vs) = true ->
-  simple_agg2 Checked [FSum c] [TInt] cs = Ok [[VInt (zsum (ints_of_vals vs))]].
+  simple_agg2 m [FSum c] [TInt] cs = Ok [[VInt (zsum (ints_of_vals vs))]].
 Proof. exact sum_spec_l. Qed.
 Print Assumptions sum_spec.
 
-Theorem sum_overflow_refuted : exists cs,
-  simple_agg2 Checked [FSum 0%nat] [TInt] cs = Panic
-  /\ simple_agg2 Wrapping [FSum 0%nat] [TInt] cs = Ok [[VInt (- two63)]].
-Proof. exact sum_overflow_refuted_l. Qed.
-Print Assumptions sum_overflow_refuted.
+(** before a66b89b (finding C11-K10, fixed): [*sum += v] *)
+Theorem sum_overflow_pre_refuted : exists l,
+  sum_fold_pre Checked l = Panic /\ sum_fold_pre Wrapping l = Ok (- two63) /\ zsum l = two63.
+Proof. exact sum_overflow_pre_refuted_l. Qed.
+Print Assumptions sum_overflow_pre_refuted.
+
+Theorem aggregates_never_panic : forall m vs st, st_panic st = false -> st_panic (fold_left (agg_step m) vs st) = false.
+Proof. exact fold_step_no_panic. Qed.
+Print Assumptions aggregates_never_panic.
 
 Theorem avg_spec : forall m c cs,
   let vs := col_vals c (rows_of cs) in
@@ -364,29 +356,33 @@ Theorem typed_result_faithful : forall t v, type_okb t v = true -> push_typed t 
 Proof. exact push_typed_ok. Qed.
 Print Assumptions typed_result_faithful.
 
-Theorem min_string_typed_refuted : exists cs v,
-  simple_agg2 Checked [FMin 0%nat] [TAny] cs = Ok [[v]] /\ v <> VInt 0
-  /\ simple_agg2 Checked [FMin 0%nat] [planner_type (FMin 0%nat)] cs = Ok [[VInt 0]].
-Proof. exact min_string_typed_refuted_l. Qed.
-Print Assumptions min_string_typed_refuted.
-
-Theorem aggregate_result_types_fix : forall f v,
-  match f with FCountStar | FCount _ | FAvg _ => True | _ => push_typed (planner_type_fix f) v = v end.
+(** as it is now (41c4655): SUM / MIN / MAX / COLLECT / FIRST / LAST results keep their type *)
+Theorem aggregate_result_types : forall f v,
+  match f with FCountStar | FCount _ | FAvg _ => True | _ => push_typed (planner_type f) v = v end.
 Proof. exact planner_type_fix_ok. Qed.
-Print Assumptions aggregate_result_types_fix.
+Print Assumptions aggregate_result_types.
 
-Theorem hash_agg_rows_fix : forall m gcols aggs tys cs,
-  hash_agg2_fix m gcols aggs tys cs
+(** before 41c4655 (finding C11-K9, fixed) *)
+Theorem min_string_typed_pre_refuted : exists cs v,
+  simple_agg2 Checked [FMin 0%nat] [TAny] cs = Ok [[v]] /\ v <> VInt 0
+  /\ simple_agg2 Checked [FMin 0%nat] [planner_type_pre (FMin 0%nat)] cs = Ok [[VInt 0]].
+Proof. exact min_string_typed_refuted_l. Qed.
+Print Assumptions min_string_typed_pre_refuted.
+
+(** as it is now (dfd360c): every group row is key ++ typed results *)
+Theorem hash_agg_rows : forall m gcols aggs tys cs,
+  hash_agg2 m gcols aggs tys cs
   = let gs := hash_groups2 m gcols aggs (rows_of cs) in
     if existsb (fun g => existsb st_panic (snd g)) gs then Panic else Ok (map (group_row2 tys) gs).
 Proof. exact hash_agg2_fix_l. Qed.
-Print Assumptions hash_agg_rows_fix.
+Print Assumptions hash_agg_rows.
 
-Theorem typed_vector_second_null_refuted : exists cs,
-  hash_agg2 Checked [0%nat] [FAvg 1%nat] [TFloat] cs = Ok [[VInt 1; VNull]; [VInt 2; VFloat 0]]
-  /\ hash_agg2_fix Checked [0%nat] [FAvg 1%nat] [TFloat] cs = Ok [[VInt 1; VNull]; [VInt 2; VNull]].
+(** before dfd360c (finding C11-K11, fixed) *)
+Theorem typed_vector_second_null_pre_refuted : exists cs,
+  hash_agg2_pre Checked [0%nat] [FAvg 1%nat] [TFloat] cs = Ok [[VInt 1; VNull]; [VInt 2; VFloat 0]]
+  /\ hash_agg2 Checked [0%nat] [FAvg 1%nat] [TFloat] cs = Ok [[VInt 1; VNull]; [VInt 2; VNull]].
 Proof. exact typed_vector_second_null_refuted_l. Qed.
-Print Assumptions typed_vector_second_null_refuted.
+Print Assumptions typed_vector_second_null_pre_refuted.
 
 (** non-vacuity: the hypotheses are met by non-trivial inputs *)
 Example nv_bpred : bpred (EBin And (EBin Lt (EBin Add (EVar 0) (ELit (VInt 1))) (ELit (VInt 5))) (EUn Not (EVar 1))) = true
